@@ -84,6 +84,10 @@ RETCODE adfRenameEntry ( struct AdfVolume * const vol,
         return RC_ERROR;
     }
 
+    /* the directory cache of the target may need a new block for the (longer) record */
+    if ( isDIRCACHE ( vol->dosType ) && ! adfHasFreeBlocks ( vol, 1 ) )
+        return RC_VOLFULL;
+
     /* nothing is modified before the request is known to be valid: the new name must be
        free in the new parent, and a directory cannot be moved into its own subtree */
     {
@@ -361,6 +365,10 @@ RETCODE adfSetEntryComment ( struct AdfVolume * const vol,
         (*adfEnv.wFct)("adfSetEntryComment : entry not found");
         return RC_ERROR;
     }
+
+    /* a longer comment may move the cache record into a new cache block */
+    if ( isDIRCACHE ( vol->dosType ) && ! adfHasFreeBlocks ( vol, 1 ) )
+        return RC_VOLFULL;
 
     entry.commLen = (uint8_t) min ( (unsigned) MAXCMMTLEN, strlen ( newCmt ) );
     memcpy(entry.comment, newCmt, entry.commLen);
@@ -1059,6 +1067,13 @@ RETCODE adfCreateDir ( struct AdfVolume * const vol,
     if ( rc != RC_OK )
         return rc;
 
+    /* with a directory cache up to three blocks are needed (the directory, its cache block,
+       a new cache block of the parent): refuse before anything is linked */
+    if ( isDIRCACHE ( vol->dosType ) && ! adfHasFreeBlocks ( vol, 3 ) ) {
+        (*adfEnv.wFct)("adfCreateDir : not enough free blocks");
+        return RC_VOLFULL;
+    }
+
     /* -1 : do not use a specific, already allocated sector */
     nSect = adfCreateEntry(vol, &parent, name, -1);
     if (nSect==-1) {
@@ -1117,6 +1132,10 @@ RETCODE adfCreateFile ( struct AdfVolume * const        vol,
     RETCODE rc = adfReadEntryBlock ( vol, nParent, &parent );
     if ( rc != RC_OK )
         return rc;
+
+    /* with a directory cache a second block may be needed for the parent's cache */
+    if ( isDIRCACHE ( vol->dosType ) && ! adfHasFreeBlocks ( vol, 2 ) )
+        return RC_VOLFULL;
 
     /* -1 : do not use a specific, already allocated sector */
     nSect = adfCreateEntry(vol, &parent, name, -1);
